@@ -72,7 +72,6 @@ omit [Field K] in
 theorem hankDatOfR_entry (R : Mat K) (nref p i j : ℕ) :
     (hankDatOfR R nref p).e i j = R.e j (nref * (p + 1) + i) := rfl
 
-omit [Field K] in
 /-- and the stacked matrix of the model has the past-reference rows first, then the future rows -/
 theorem hankYs_rows (Y Yref : Mat K) (p : ℕ) (s : K) (i c : ℕ) :
     (hankYs Y Yref p s).e i c =
